@@ -15,7 +15,7 @@ theorem cg_Div_signed (dbg : Bool) (ty : CTy) (hf : ty.isFloat = false) {w : Nat
       if b = 0 then .panic
       else if a = BitVec.intMin w ∧ b = BitVec.allOnes w then .panic
       else .ok (CVal.ofBv ty (a.sdiv b)) := by
-  simp only [cg_Div, Cg.operand, Cg.variable_, Cg.def_, CVal.ofBv_ty, sdiv_ofBv _ hf hw]
+  simp only [cg_Div, ↓reduceIte, Bool.false_eq_true, Cg.operand, Cg.variable_, Cg.def_, CVal.ofBv_ty, sdiv_ofBv _ hf hw]
   split
   · rfl
   · split <;> simp
@@ -23,19 +23,19 @@ theorem cg_Div_unsigned (dbg : Bool) (ty : CTy) (hf : ty.isFloat = false) {w : N
     (a b : BitVec w) :
     cg_Div dbg false (CVal.ofBv ty a) (CVal.ofBv ty b) =
       if b = 0 then .panic else .ok (CVal.ofBv ty (a / b)) := by
-  simp only [cg_Div, Cg.operand, Cg.variable_, Cg.def_, CVal.ofBv_ty, udiv_ofBv _ hf hw]
+  simp only [cg_Div, ↓reduceIte, Bool.false_eq_true, Cg.operand, Cg.variable_, Cg.def_, CVal.ofBv_ty, udiv_ofBv _ hf hw]
   split <;> simp
 theorem cg_Mod_signed (dbg : Bool) (ty : CTy) (hf : ty.isFloat = false) {w : Nat} (hw : ty.bits = w)
     (a b : BitVec w) :
     cg_Mod dbg true (CVal.ofBv ty a) (CVal.ofBv ty b) =
       if b = 0 then .panic else .ok (CVal.ofBv ty (a.srem b)) := by
-  simp only [cg_Mod, Cg.operand, Cg.variable_, Cg.def_, CVal.ofBv_ty, srem_ofBv _ hf hw]
+  simp only [cg_Mod, ↓reduceIte, Bool.false_eq_true, Cg.operand, Cg.variable_, Cg.def_, CVal.ofBv_ty, srem_ofBv _ hf hw]
   split <;> simp
 theorem cg_Mod_unsigned (dbg : Bool) (ty : CTy) (hf : ty.isFloat = false) {w : Nat} (hw : ty.bits = w)
     (a b : BitVec w) :
     cg_Mod dbg false (CVal.ofBv ty a) (CVal.ofBv ty b) =
       if b = 0 then .panic else .ok (CVal.ofBv ty (a % b)) := by
-  simp only [cg_Mod, Cg.operand, Cg.variable_, Cg.def_, CVal.ofBv_ty, urem_ofBv _ hf hw]
+  simp only [cg_Mod, ↓reduceIte, Bool.false_eq_true, Cg.operand, Cg.variable_, Cg.def_, CVal.ofBv_ty, urem_ofBv _ hf hw]
   split <;> simp
 
 /-- the generated `Div` arm with the flag of the operand type, on all operands: traps exactly at a
